@@ -74,7 +74,7 @@ fn c32(args: &Args, report: &Report) {
 
     // (a)
     let shards = args.by_tier(64usize, 256usize);
-    let sessions_per_shard = args.by_tier(40u64, 150u64);
+    let sessions_per_shard = args.by_tier(40u64, 80u64);
     let ops = args.by_tier(120usize, 300usize);
     {
         let report2 = report.clone();
@@ -93,7 +93,7 @@ fn c32(args: &Args, report: &Report) {
     report.info("c32.phase_a_concurrent_done_s", json!(report.start.elapsed().as_secs_f64()));
 
     // (b)
-    let codec_iters = args.by_tier(400u64, 3000u64);
+    let codec_iters = args.by_tier(400u64, 1500u64);
     {
         let report2 = report.clone();
         let mut a2 = args.clone();
